@@ -140,6 +140,20 @@ def run(ctx):
     ctx.counted('names ending in a line feed: walk (str, bytes, dir_fd, descriptor 0, pathlib) vs REALPATH matcher', ntn_, ntn_ // 2, [{'pattern': '[b]', 'entry': 'b\\n'}])
     nin_ = globcommon.inert_arguments(ctx, rng, 3 if ctx.quick else 6)
     ctx.counted('arguments that cannot change the answer (inert exclude=, root spelling, NOUNIQUE)', nin_, nin_ // 2, [{'pattern': '**', 'exclude': 'zz-no-such-name*'}])
+    # a root that is not a directory (missing, or a regular file): nothing exists relative to it, whatever the pattern
+    nbad = 0
+    with trees.Tree([('f', 'f', None), ('d', 'd', None)]) as TB:
+        for broot in (os.path.join(TB.root, 'missing'), os.path.join(TB.root, 'f'), os.path.join(TB.root, 'missing', 'deeper')):
+            for pat in ('.', './', '..', '../', './/', './.', '../.', '*', '**', '**/', 'a', 'a/', '.|..', ['./', '../'], '{.,..}/', '*/..', './..//'):
+                for fv in (0, Gm.MARK, Gm.GLOBSTAR | Gm.SPLIT | Gm.BRACE, Gm.NODIR, Gm.SCANDOTDIR | Gm.DOTGLOB):
+                    nbad += 1
+                    enc_ = (lambda x: [i.encode() for i in x] if isinstance(x, list) else x.encode())
+                    got = {'str': Gm.glob(pat, flags=fv, root_dir=broot), 'bytes': Gm.glob(enc_(pat), flags=fv, root_dir=broot.encode()), 'iglob': list(Gm.iglob(pat, flags=fv, root_dir=pathlib.Path(broot)))}
+                    if any(got.values()):
+                        ctx.counterexample('glob(%r, %s, root_dir=<%s>) returns %r: nothing exists relative to such a root' % (pat, corr.flag_names(fv), 'a regular file' if broot.endswith('/f') else 'a missing directory', got),
+                                           {'pattern': pat, 'flags': corr.flag_names(fv), 'root': 'regular file' if broot.endswith('/f') else 'missing'})
+                        break
+    ctx.counted('roots that are not directories', nbad, nbad, [{'pattern': './', 'root_dir': '<missing>'}])
     from props import fringe
     fringe.deep_tree_roots(ctx)
     return ctx.finish(RULE)
